@@ -157,7 +157,7 @@ pub fn generate_with(run_seed: u64, oversize_pct: u64) -> PipeSpec {
             short_write_pct: *s.fault.pick(&[0u8, 10, 50]),
             eintr_write_pct: *s.fault.pick(&[0u8, 5, 20]),
             short_read_pct: *s.fault.pick(&[0u8, 10, 50]),
-            eintr_read_pct: 0,
+            eintr_read_pct: *s.fault.pick(&[0u8, 5, 20]),
             seed: s.fault.next(),
         }
     } else {
